@@ -64,6 +64,77 @@ def gen_coll_ref(rng, name):
     return c
 
 
+def gen_relay_ref(rng, name):
+    """A re-pointed reference handed THROUGH a nested graph that returns its parameter (the nested node re-points its forwarding
+    output on every retarget); the newly selected target often ticked while it was not selected. Judged at the retarget cycles
+    only: the consumer behind the nested graph runs and reads the new target's current value AS MODIFIED (further ticks of this
+    shape are the known finding F12 and are not judged here)."""
+    from .prog import Case, S
+    end = rng.choice([24, 36])
+    c = Case(name, 0, end)
+    for u in (1, 2):
+        c.scripts[u] = [(0, u * 100)] + [(t, u * 100 + t) for t in sorted(rng.sample(range(1, end), rng.choice([4, 8, 12])))]
+    val = rng.choice([0, 1])
+    cs = [(0, val)]
+    for t in sorted(rng.sample(range(2, end), rng.choice([3, 5, 8]))):
+        val = 1 - val
+        cs.append((t, val))
+    c.scripts[3] = cs
+    depth = 1       # (two levels would be a sub-graph returning a nested call's port directly: the forwarding-chain shape of F4)
+    c.graphs["sub0"] = [S("", "RET", "p0")]
+    c.graphs["sub1"] = [S("n", "nested", "p0", sid=0), S("", "RET", "n")]
+    c.graphs["main"] = [S("a", "src", uid=1, mode=1), S("b", "src", uid=2, mode=1), S("c", "src", uid=3, mode=1), S("sel", "ite", "c", "a", "b", uid=4),
+                        S("y", "nested", "sel", sid=0 if depth == 1 else 1), S("z", "pass", "y", uid=60), S("", "rec", "z", uid=61),
+                        S("d", "pass", "sel", uid=62)]
+    c.meta.update(kind="relay", depth=depth)
+    return c
+
+
+def check_relay(case, tr):
+    res = Result(signature=case.text().split("\n", 1)[1])
+    run = tr.runs[0]
+    if tr.build_error or run.error:
+        res.violations.append(Violation(f"build/run failed: {tr.build_error or run.error}"))
+        return res
+    tick = {u: dict(case.scripts[u]) for u in (1, 2)}
+    cond = dict(case.scripts[3])
+    z = {ue.t: ue for ue in run.uevals() if ue.uid == 60}
+    held = {1: None, 2: None}
+    sel = None
+    checked = stale = 0
+    last_seen = {1: None, 2: None}
+    for t in range(case.start, case.end):
+        for u in (1, 2):
+            if t in tick[u]:
+                held[u] = tick[u][t]
+        if t not in cond:
+            if sel is not None and t in tick[sel]:
+                last_seen[sel] = t
+            continue
+        new = 1 if cond[t] != 0 else 2
+        retarget = sel is not None and new != sel
+        sel = new
+        if retarget and held[sel] is not None:
+            checked += 1
+            if last_seen[sel] is not None and max(k for k in tick[sel] if k <= t) > last_seen[sel] and t not in tick[sel]:
+                stale += 1          # the new target ticked while it was not selected
+            ue = z.get(t)
+            if ue is None:
+                res.violations.append(Violation(f"t={t}: retarget to source {sel} (value {held[sel]}): the consumer behind the nested pass-through "
+                                                f"(depth {case.meta['depth']}) was not evaluated"))
+            else:
+                valid, mod, lmt, v = ue.ins[0]
+                if v != held[sel] or not mod:
+                    res.violations.append(Violation(f"t={t}: retarget to source {sel} (value {held[sel]}): the consumer behind the nested pass-through "
+                                                    f"(depth {case.meta['depth']}) reads (valid,modified,lmt,value)={ue.ins[0]}: the new target's current "
+                                                    f"value must read as modified"))
+        last_seen[sel] = t if held[sel] is not None else last_seen[sel]
+    res.violations = res.violations[:5]
+    res.counters = {"relay_retargets_checked": checked, "relay_retargets_to_a_target_that_ticked_unselected": stale}
+    res.nontrivial = stale >= 1
+    return res
+
+
 def gen_sibling_ref(rng, name):
     """Selection between two ELEMENTS OF ONE list output (same owning output, same schema): references to siblings."""
     from .prog import Case, S
@@ -137,6 +208,7 @@ def generate(rng, tier, seed):
                       n_nodes=rng.choice([4, 6, 9, 14, 20])) for k in range(n)]
     cases += [gen_coll_ref(rng, f"c13_{seed}_coll{k}") for k in range(n // 4)]
     cases += [gen_sibling_ref(rng, f"c13_{seed}_sib{k}") for k in range(n // 5)]
+    cases += [gen_relay_ref(rng, f"c13_{seed}_rly{k}") for k in range(n // 5)]
     from .witness import f12_case
     cases.append(f12_case(f"c13_{seed}_witnessF12"))
     from .witness import f22_case
@@ -267,6 +339,8 @@ def check(case, tr):
         return check_coll(case, tr)
     if case.meta.get("kind") == "sibling":
         return check_sibling(case, tr)
+    if case.meta.get("kind") == "relay":
+        return check_relay(case, tr)
     res = Result(signature=case.text().split("\n", 1)[1])
     if tr.build_error:
         res.violations.append(Violation(f"valid program rejected at build: {tr.build_error}"))
